@@ -31,12 +31,19 @@ def judge(case, g, nbytes):
         if v: return v
     return None
 
+def jets_file(c):
+    """the crate's jet tables for the spec decoder (Codec.tla JetRows)"""
+    p = os.path.join(c.work, "jets.ndjson")
+    if not os.path.exists(p) or os.path.getmtime(p) < c.t0:
+        c.vh(["c14", "table", p])
+    return p
+
 def body(c):
     q = not c.thorough
     tier = "quick" if q else "thorough"
     cases = []
     for mode in ("strings", "lists"):
-        r = c.tlc_design("MC_Codec", "MC_Codec_%s_%s.cfg" % (mode, tier), heap="24g", timeout=3400, workers=16)
+        r = c.tlc_design("MC_Codec", "MC_Codec_%s_%s.cfg" % (mode, tier), heap="24g", timeout=3400, workers=16, env={"JETS": jets_file(c)})
         cases += tla_to_json_lines(r.prints, "CASE")
     cpath = os.path.join(c.work, "cases.ndjson")
     with open(cpath, "w") as f:
@@ -75,7 +82,7 @@ def body(c):
             v = judge(None, ev["got"], len(ev["pb"]) // 8 + len(ev["wb"]) // 8)
             if v: return v
         return ("c02:trace", json.dumps(ev)[:400])
-    validate_trace(c, "Trace_Codec", "Trace_Codec.cfg", tpath, describe, heap="8g", env={"ALLOC_C0": ALLOC_C0, "ALLOC_K": ALLOC_K})
+    validate_trace(c, "Trace_Codec", "Trace_Codec.cfg", tpath, describe, heap="8g", env={"JETS": jets_file(c), "ALLOC_C0": ALLOC_C0, "ALLOC_K": ALLOC_K})
     # ---- totality on deeply nested programs: one decode (+ display, execution, drop) per process, on the main
     # thread and on a thread with the default 2 MiB stack; a stack overflow kills the process and is an outcome
     import subprocess
